@@ -332,3 +332,90 @@ def check_constructor_store(ctx, cls_key=DSG, rule='A11s'):
                         f'{real[0][0].qualname} L{real[0][1].lineno} passes `{norm(real[0][2])}` (the receiver\'s '
                         f'own container) and the constructor stores it uncopied'))
     return n
+
+
+# ---------------------------------------------------------------------- A11m: mutable containers in a class body
+def _mutable_display(v):
+    if isinstance(v, (ast.Dict, ast.List, ast.Set, ast.ListComp, ast.DictComp, ast.SetComp)):
+        return True
+    if isinstance(v, ast.Call):
+        nm = norm(v.func).split('.')[-1]
+        return nm in ('set', 'dict', 'list', 'defaultdict', 'OrderedDict', 'deque', 'zeros', 'ones', 'empty', 'array')
+    return False
+
+
+def check_class_level_containers(ctx, rule='A11m'):
+    """A mutable container created in a class body is one object shared by every instance (and every processor /
+    graph of the session).  It is acceptable only as a read-only table: unless `__init__` gives every instance its
+    own object, the attribute must never be written in place, handed to a call (the callee may write it), aliased
+    or returned through an instance."""
+    from .prov import MUTATORS
+    prog = ctx.prog
+    n = 0
+    for cls in prog.all_classes():
+        if cls.module.name.startswith('adsg_core.examples'):
+            continue
+        for st in cls.node.body:
+            if isinstance(st, ast.Assign) and len(st.targets) == 1 and isinstance(st.targets[0], ast.Name):
+                name, v = st.targets[0].id, st.value
+            elif isinstance(st, ast.AnnAssign) and st.value is not None and isinstance(st.target, ast.Name):
+                name, v = st.target.id, st.value
+            else:
+                continue
+            if not _mutable_display(v) or (cls.name, name) in CLASS_WRITE_TABLE:
+                continue
+            if any(d.split('(')[0].split('.')[-1] == 'dataclass' for d in cls.decorators):
+                continue        # dataclasses reject mutable defaults themselves
+            family = [cls] + prog.subclasses(cls)
+            # does every instance get its own object?
+            own = False
+            for k in prog.mro(cls):
+                ini = k.methods.get('__init__')
+                if ini is not None:
+                    own = any(isinstance(s, (ast.Assign, ast.AnnAssign)) and
+                              any(is_self_attr(t, name) for t in (s.targets if isinstance(s, ast.Assign) else [s.target]))
+                              for s in ini.body)
+                    break
+            if own:
+                continue
+            escapes = []
+            for fn in prog.all_functions():
+                if fn.owner_class not in family:
+                    continue
+                parents = {}
+                for p in ast.walk(fn.node):
+                    for ch in ast.iter_child_nodes(p):
+                        parents[id(ch)] = p
+                for sub in walk_fn(fn):
+                    if not (isinstance(sub, ast.Attribute) and sub.attr == name and
+                            norm(sub.value) in ('self', 'cls', 'self.__class__', cls.name)):
+                        continue
+                    par = parents.get(id(sub))
+                    how = None
+                    if isinstance(sub.ctx, (ast.Store, ast.Del)):
+                        continue            # re-binding is the business of A11c
+                    if isinstance(par, ast.Subscript) and par.value is sub and isinstance(par.ctx, (ast.Store, ast.Del)):
+                        how = 'item written in place'
+                    elif isinstance(par, ast.AugAssign) and par.target is sub:
+                        how = 'augmented assignment'
+                    elif isinstance(par, ast.Attribute) and par.value is sub and par.attr in MUTATORS and \
+                            isinstance(parents.get(id(par)), ast.Call) and parents[id(par)].func is par:
+                        how = f'.{par.attr}() in place'
+                    elif isinstance(par, ast.Call) and sub in par.args:
+                        how = f'handed to {short(par.func, 40)}()'
+                    elif isinstance(par, ast.keyword):
+                        how = f'handed to a call as {par.arg}='
+                    elif isinstance(par, (ast.Return, ast.Yield)):
+                        how = 'returned'
+                    elif isinstance(par, (ast.Assign, ast.AnnAssign)) and par.value is sub:
+                        how = 'aliased'
+                    if how:
+                        escapes.append((fn, sub, how))
+            n += 1
+            ctx.ob(rule, f'{cls.key}:{rule}:{name}', not escapes, f'{cls.module.relpath}:{st.lineno}',
+                   f'`{cls.name}.{name}` is a mutable container created in the class body (one object for all '
+                   f'instances) and no __init__ gives each instance its own: it is only ever read',
+                   'read-only uses' if not escapes else
+                   f'{escapes[0][0].qualname} L{escapes[0][1].lineno}: {escapes[0][2]} - every '
+                   f'{cls.name} of the session shares what is written there')
+    return n
